@@ -208,6 +208,10 @@ def history_candidates(spec):
             c = dict(spec)
             c["history"] = dict(h, reload=False)
             yield c
+        if h.get("charts_between"):
+            c = dict(spec)
+            c["history"] = dict(h, charts_between=False)
+            yield c
         for k_ in ("first_absence", "interleave"):
             if h.get(k_):
                 c = dict(spec)
@@ -225,6 +229,30 @@ def call_getters(p):
     for fn in (org.get_worker_list, org.get_facility_list, org.get_team_list, org.get_workplace_list, wf.get_task_list,
                prod.get_component_list, p.get_all_task_list if hasattr(p, "get_all_task_list") else wf.get_task_list):
         D.call(lambda: fn())
+
+
+def call_chart_data(p):
+    """The helpers that turn the logs into chart data (they only read; a user may look at a chart at any time)."""
+    import datetime as _dt
+    t0, dt = _dt.datetime(2024, 1, 1, 8, 0, 0), _dt.timedelta(hours=1)
+    n = 0
+    for holder in (p.workflow, p.product, p.organization):
+        fn = getattr(holder, "create_data_for_gantt_plotly", None)
+        if fn is not None:
+            D.call(lambda: fn(t0, dt))
+            n += 1
+    objs = list(p.workflow.task_list) + list(p.product.component_list)
+    for tm in p.organization.team_list:
+        objs += list(tm.worker_list)
+    for wp in p.organization.workplace_list:
+        objs += list(wp.facility_list)
+    for o in objs:
+        fn = getattr(o, "get_time_list_for_gannt_chart", None)
+        if fn is not None:
+            D.call(lambda: fn())
+            D.call(lambda: fn(finish_margin=0.5))
+            n += 1
+    return n
 
 
 def run_forward(spec, **kw):
@@ -311,6 +339,8 @@ def run_forward(spec, **kw):
                 seams.rerank(p, spec.get("ranks") or {})
     if ops:
         apply_org_edit(p, spec["model"], ops)
+    if hist.get("charts_between"):
+        call_chart_data(p)  # somebody looks at the charts of the paused run
     tr.first_snap = D.snapshot(D.index(p))  # the state the first call (and the optional reload) left
     tr.log_offset = len(p.cost_list) if not hist["log"] else 0
     cfg2 = dict(spec["cfg"])
